@@ -21,7 +21,7 @@ StartMenu == <<Ord(2000, 4, 26), Ord(2000, 1, 26), Ord(1999, 12, 29), Ord(2000, 
 \* candidate holidays: Fri 28 Apr 2000, Mon 1 May 2000, Mon 31 Jan 2000 (a month end), Fri 31 Dec 1999
 HolDays == <<Ord(2000, 4, 28), Ord(2000, 1, 31), Ord(2000, 5, 1), Ord(1999, 12, 31)>>
 Lo == Ord(1999, 1, 1)
-Hi == Ord(2006, 1, 1)
+Hi == Ord(2007, 1, 1)
 Cal(h) == [hol |-> h, wk |-> {5, 6}, adj |-> "m", lo |-> Lo, hi |-> Hi]
 c == Cal(H)
 
